@@ -132,6 +132,17 @@ def all_configs(quick):
     cf.append(C("H2-circuit-qham-defl-proj", "H2", "circuit", "jw", False, qham=True, sym=False, defl="two", proj="unitary"))
     cf.append(C("H2-HEA-qham", "H2", "HEA", "jw", False, qham=True, sym=False, budget=4))
     cf.append(C("H2-circuit-qham-measproj", "H2", "circuit", "jw", False, qham=True, sym=False, proj="measure", meas=True))
+    # encoding names are case-insensitive in the library: every spelling the constructor accepts must behave alike.
+    # pUCCD with all spellings of "hcb" (the solver only rewrites the name when it is NOT some spelling of hcb);
+    # the other encodings with a spelling drawn from the seed (recorded in the replay case)
+    cf.append(C("H2-pUCCD-hcb-lower", "H2", "pUCCD", "hcb", False))
+    cf.append(C("H2-pUCCD-Hcb-mixed", "H2", "pUCCD", "Hcb", True))
+    cf.append(C("H4-pUCCD-hcb-lower", "H4", "pUCCD", "hcb", False, M=16))
+    srng = random.Random(1000 + int(os.environ.get("VERIF_SEED", "0") or 0))
+    for mp, spellings in (("jw", ("Jw", "jW")), ("bk", ("Bk", "bK")), ("scbk", ("scBK", "Scbk", "ScBk")),
+                          ("jkmn", ("Jkmn", "jkMN"))):          # (all-upper / all-lower spellings have their own configurations)
+        cf.append(C("H2-UCCSD-%s-spelling" % mp, "H2", "UCCSD", srng.choice(spellings), srng.random() < 0.5, nthetas=2))
+    cf.append(C("LiHfz-UpCCGSD-scbk-spelling", "LiH_fz", "UpCCGSD", srng.choice(("scBK", "Scbk", "sCBk")), False, nthetas=2))
     # user-defined Backend subclass as backend_options["target"]: generic statevector expectation route of the base class
     # (complex amplitudes: RX / RZ / XX / PHASE rotations)
     cf.append(C("H2-circuit-qham-userbackend", "H2", "circuit", "jw", False, qham=True, sym=False, backend="user"))
@@ -596,7 +607,7 @@ def drive(chk, cfg, v, theta, Hexp, symops, n):
     """Call the solver at theta; return a Sample with the code's values and the TLC job (or None)."""
     s = Sample()
     s.cfg, s.theta = cfg, [float(x) for x in theta]
-    s.case = {"cfg": cfg["name"], "theta": s.theta}
+    s.case = {"cfg": cfg["name"], "theta": s.theta, "mapping": cfg["mapping"], "utd": cfg["utd"]}
     s.E = s.job = None
     s.sym = {}
     s.symdefault = {}
@@ -1104,12 +1115,12 @@ def gen_histories(chk, ntheta, depth, with_rdm, simulate=None, tag="h"):
             kinds[c["kind"]] = kinds.get(c["kind"], 0) + 1
     want = {"energy", "simulate", "opexpobj", "resources"} | ({"opexp", "opexpcur", "rdm"} if with_rdm else set())
     forms = {c["op"] for h in hs for c in h if c["kind"] == "opexpobj"}
-    if not ({"qforeign", "qown"} | ({"fermion"} if with_rdm else set())) <= forms:
+    if not simulate and not ({"qforeign", "qown"} | ({"fermion"} if with_rdm else set())) <= forms:
         raise tlc.TLCError("vacuity: operator forms never generated: %s" % forms)
     cov = r.coverage_counts() if not simulate else {}
     chk.part("G_histories_" + tag, histories=len(hs), calls_by_action=kinds,
              tlc_action_coverage={a: cov[a][1] for a in ("Do", "OpExp", "OpExpCur", "Rdm") if a in cov})
-    if want - set(kinds):
+    if not simulate and want - set(kinds):
         raise tlc.TLCError("vacuity: actions never taken in generated histories: %s" % sorted(want - set(kinds)))
     uniq, seen = [], set()
     for h in hs:
@@ -1256,7 +1267,7 @@ def g_part(chk, st, hists, tag):
             cls = "optimal_circuit-aliases-ansatz-circuit" if "optimal_circuit changed" in text else "%s:%s" % (cfg["ansatz"], h[step]["kind"])
             chk.violation("history:%s" % cls,
                           "%s history %s: step %d: %s" % (cfg["name"], [(c["kind"], c["op"], c["t"]) for c in h], step, text),
-                          {"cfg": cfg["name"], "history": h, "thetas": [list(map(float, t)) for t in st.thetas]})
+                          {"cfg": cfg["name"], "history": h, "thetas": [list(map(float, t)) for t in st.thetas], "mapping": cfg["mapping"], "utd": cfg["utd"]})
             v = None
     chk.add_traces(replayed, "G_replayed_" + tag)
 
@@ -1304,7 +1315,8 @@ def run(chk):
                 continue
             # depth-3 enumeration is replayed on the cheapest configurations only
             if not (quick and st.cfg["ansatz"] == "HEA"):        # quick: the HEA configuration gets the random long histories only
-                g_part(chk, st, hs if (quick or st.n <= 2) else gen_histories_cached(chk, 2, 2), "bfs")
+                # quick: the full enumeration on the 2-qubit configuration, every third history on the larger ones
+                g_part(chk, st, (hs if st.n <= 2 else hs[::3]) if quick else (hs if st.n <= 2 else gen_histories_cached(chk, 2, 2)), "bfs")
             g_part(chk, st, hs_long, "sim")
     chk.part("wall_s", V=round(t_v, 1), negative_controls=round(t_neg, 1), G=round(time.time() - t0, 1), **_TIMES)
     nE = sum(1 for s in samples if getattr(s, "Eexp", None) is not None)
@@ -1330,7 +1342,11 @@ def run(chk):
 
 def replay(chk, rec):
     case = rec["case"]
-    cfg = by_name(case["cfg"])
+    cfg = dict(by_name(case["cfg"]))
+    if case.get("mapping"):
+        cfg["mapping"] = case["mapping"]          # the spelling (and ordering) drawn when the case was recorded
+    if case.get("utd") is not None:
+        cfg["utd"] = case["utd"]
     c2 = check.Check("C08", [chk.tier])
     c2.known = []
     rng = random.Random(0)
